@@ -281,12 +281,22 @@ func checkRegisteredValueQuoted(c *Ctx, p *core.Prog) {
 		if !c.R.Anchor(fn != nil, "stringclassifier."+name) {
 			continue
 		}
-		for _, call := range core.CallsIn(fn) {
+		// the registration function and the helpers of the package it hands the value to
+		var sites []ssa.CallInstruction
+		siteFn := map[ssa.CallInstruction]*ssa.Function{}
+		for _, g := range pkgClosure(fn, scPkg) {
+			for _, call := range core.CallsIn(g) {
+				sites = append(sites, call)
+				siteFn[call] = g
+			}
+		}
+		for _, call := range sites {
 			n := core.StaticCalleeName(call.Common())
 			if n != "regexp.Compile" && n != "regexp.MustCompile" {
 				continue
 			}
 			nCompile++
+			fn := siteFn[call]
 			arg := call.Common().Args[0]
 			quoted := isCallTo(arg, "regexp.QuoteMeta")
 			c.R.Check(quoted, "R13.1", core.ShortFn(fn)+": the registered value is quoted before it is compiled", p.Pos(call.Pos()),
